@@ -7,6 +7,8 @@ import (
 	"github.com/bitcoin-sv/block-headers-service/internal/wire"
 )
 
+func init() { register("Consts", genConsts) }
+
 func genConsts() (string, error) {
 	var b strings.Builder
 	b.WriteString(genHeader)
